@@ -375,7 +375,7 @@ class Aspire:
         preconditioning: str | None = None,
         preconditioning_kwargs: dict | None = None,
         checkpoint_path: str | None = None,
-        checkpoint_every: int = 1,
+        checkpoint_every: int | None = None,
         checkpoint_save_config: bool = True,
         **kwargs,
     ) -> Samples:
@@ -475,8 +475,12 @@ class Aspire:
         defaults = getattr(self, "_checkpoint_defaults", None)
         if checkpoint_path is None and defaults:
             checkpoint_path = defaults["path"]
-            checkpoint_every = defaults["every"]
+            # A cadence given in this call takes precedence over the context's
+            if checkpoint_every is None:
+                checkpoint_every = defaults["every"]
             checkpoint_save_config = defaults["save_config"]
+        if checkpoint_every is None:
+            checkpoint_every = 1
         saved_flow = defaults.get("saved_flow", False) if defaults else False
         saved_config = (
             defaults.get("saved_config", False) if defaults else False
